@@ -166,7 +166,9 @@ def information_weight(data, prior_strength=0.1, approximate_prior=False, target
         column_kl_divergence_func = supervised_column_kl
 
     csc_data = data.tocsc()
-    csc_data.sort_indices()
+    if not csc_data.has_sorted_indices:
+        # sorted_indices() returns a copy: tocsc() of a CSC matrix is the caller's own object
+        csc_data = csc_data.sorted_indices()
 
     weights = column_weights(
         csc_data.indptr,
